@@ -21,7 +21,9 @@ var c20SpecialKeys = []string{"container.name", "container-id", "container", "co
 	"duration.seconds", "duration_seconds", "duration", "bytes", "rate", "count-over-time", "label.replace", "sum", "topk", "ip", "vector", "avg_over_time", "first-over-time",
 	"On", "By", "OR", "Offset", "JSON", "Keep", "Group_Left", "Line-Format", "Sum", "IP", // case variants of keywords are ordinary names
 	// the short names docker ps --filter and Compose use: as Docker label keys they are labels of their own
-	"id", "name", "image", "state", "status", "label", "service", "project", "health", "network", "command", "created", "names", "ports"}
+	"id", "name", "image", "state", "status", "label", "service", "project", "health", "network", "command", "created", "names", "ports",
+	// names the engine also gives to fields of a record (round 18): as Docker label keys they are the container's labels
+	"msg", "level", "trace_id", "span.id", "severity", "body", "timestamp"}
 
 // words of the grammar that can never be read as a label name inside {...}; function and conversion
 // names (rate, sum, bytes, duration_seconds, ip, ...) are ordinary identifiers unless followed by "("
@@ -290,12 +292,37 @@ func runC20(r *vk.Run) {
 			c.Nontrivial("docker:" + k + "=" + v)
 			c.Count("selections_nonempty", 1)
 		}
+		lines := map[string]int{}
 		for _, s := range res.Streams {
-			if s.Labels[sk] != v {
+			// a selector {msg=""} also selects containers lacking the Docker label; on their records the name
+			// then shows the record's own field (the line text), which is not this property's subject
+			recordField := sk == "msg" || sk == "level" || sk == "trace_id" || sk == "span_id"
+			if s.Labels[sk] != v && !(v == "" && recordField) {
 				detail["stream"] = s
 				c.Fail("", fmt.Sprintf("returned stream lacks %s=%q", sk, v), detail)
 				return
 			}
+			for _, e := range s.Entries {
+				lines[e.Line]++
+			}
+		}
+		// selected means its records come back: every container of the selection wrote exactly one line
+		for _, id := range want {
+			l := "line-" + strings.TrimLeft(strings.TrimPrefix(id, "id"), "0")
+			if id == "id00" {
+				l = "line-0"
+			}
+			if lines[l] != 1 {
+				detail["lines"] = lines
+				c.Fail("", fmt.Sprintf("selector %s: container %s was opened but its line %q came back %d times", query, id, l, lines[l]), detail)
+				return
+			}
+			c.Count("selected_lines_returned", 1)
+		}
+		if len(lines) != len(want) {
+			detail["lines"] = lines
+			c.Fail("", fmt.Sprintf("selector %s: %d distinct lines returned for %d selected containers", query, len(lines), len(want)), detail)
+			return
 		}
 		if c.Idx < 2 {
 			c.Sample("docker", map[string]any{"query": query, "key": k, "opened": got})
